@@ -13,6 +13,7 @@ import anncases
 import annhist
 import annmodel
 import core
+import workflow
 
 PROP = "C10"
 PREFIXES = ("C10.", "crash")
@@ -142,8 +143,14 @@ def run_property(ctx: core.Ctx, prop: str, prefixes: tuple, rich: bool) -> int:
             except ValueError:
                 pass
     ok_runs = sum(1 for e in events if e["exit"] == 0)
+    n_wf = 0
+    if prop == "C07":
+        # Workflow.tla: annotate interleaved with download / lint / spdx, abstract state compared after every command
+        wf = workflow.stage(ctx, prefixes)
+        mc_viol += wf["mc_violations"]
+        n_wf = len(wf["events"])
     return ctx.finish(
-        evaluations=len(events),
+        evaluations=len(events) + n_wf,
         distinct_nontrivial=len({e["label"] for e in events if e["exit"] == 0}),
         rule="every entry of the extension and file-name tables (read off the code) x bodies {empty, code, own comment, "
              "shebang} x bundles, every --style on an unknown type, --multi-line / --single-line where supported, "
